@@ -2,7 +2,13 @@
 
 package store
 
-import "os"
+import (
+	"os"
+
+	"github.com/douban/gobeansdb/utils"
+)
+
+var utilsFnv = utils.Fnv1a
 
 func os_Open(p string) (*os.File, error) { return os.Open(p) }
 
@@ -16,3 +22,5 @@ func writeFileBytes(path string, b []byte) error {
 	}
 	return f.Close()
 }
+
+func utils_Fnv1a(b []byte) uint32 { return utilsFnv(b) }
